@@ -11,7 +11,9 @@ package didnuts
 // pair is authorised (reference authorisation model, see c09World.controllers / expectations in c09World.step).
 //
 // Histories are conflict-free: every offered update names the latest version of its DID (and the latest version of the
-// document that holds the signing key) in prevs, signing times increase monotonically. Forks are C10's business.
+// document that holds the signing key) in prevs, signing times increase monotonically. Forks are C10's business, with one
+// bounded exception (c09World.fork): a controller document whose deactivation is concurrent with a key-adding update; the
+// store merges both, the document stays deactivated although it lists keys, and the record says it authorises nothing.
 //
 // Oracles
 //   accepted-unauthorised:<class>   an update/creation the reference model does not authorise was accepted
@@ -1363,7 +1365,7 @@ func (w *c09World) offer(o *c09Offer) bool {
 		spec, ok = w.derive(rdoc, o.di)
 		ok = ok && exact(spec)
 	}
-	if o.specExact {
+	if o.specExact && o.mustReject == "" { // (an acceptance that is a violation already is not examined any further)
 		got, dok := w.derive(rdoc, o.di)
 		if !dok || !c09SpecEqual(got, o.spec) || !exact(o.spec) {
 			x.Violate("accepted-not-effective:content", "%s accepted but the latest version differs from the offered document: offered %v, resolved %s", o.label, o.spec, c09Short(string(rb)))
@@ -2128,6 +2130,58 @@ func (w *c09World) fork(i int, ev c09Event) {
 				mustReject: "accepted-unauthorised:forked-deactivated-controller", keys: []int{attacker, c.key}}
 			x.Class("offer:" + o.class)
 			x.Class("fork-offer:" + c.name)
+			w.offer(o)
+		}
+	}
+	if w.stop {
+		return
+	}
+	// The same keys, but the kid names a document of the signer's own that lists them (so the kid resolves whatever the
+	// state of A): A's keys are worth nothing any more, neither for the documents A controlled nor for A itself.
+	pk := w.freshKey()
+	pid := keys[pk].did
+	pspec := c09Spec{Keys: []c09Use{{K: pk, Rel: c09Cap | c09Asr}, {K: kx, Rel: c09Cap | c09Asr}, {K: ka, Rel: ev.Rel | c09Asr}}}
+	evh := ev
+	evh.Head = true
+	po := &c09Offer{label: fmt.Sprintf("event %d fork:proxy-create", i), op: "create", class: "legit-create(proxy)", di: len(w.dids), target: pid, newKey: pk,
+		spec: pspec, specExact: true, signKey: pk, kid: pid + "#" + keys[pk].frag, embed: pk, keys: []int{pk, kx, ka},
+		prevs: w.prevs(evh), mustAccept: true, payload: w.encode(w.rawDoc(pid, pspec))}
+	x.Class("offer:" + po.class)
+	if !w.offer(po) || w.stop {
+		return
+	}
+	proxy := w.dids[len(w.dids)-1]
+	for ti, t := range targets {
+		for ki, k := range []int{kx, ka} {
+			if w.stop {
+				return
+			}
+			spec := t.latest().spec.clone()
+			if t == a {
+				spec = specAdd.clone()
+			}
+			if _, has := spec.find(attacker); !has {
+				spec.Keys = append(spec.Keys, c09Use{K: attacker, Rel: c09Cap | c09Asr})
+			}
+			refs := []hash.SHA256Hash{t.latest().ref}
+			if t == a && (int(ev.B/2)+ki)%2 == 0 {
+				refs = append(refs, a2)
+			}
+			if t != a && (int(ev.B/2)+ki+ti)%3 == 0 {
+				refs = append(refs, a3) // also name the deactivated controller
+			}
+			refs = append(refs, proxy.latest().ref)
+			if ev.Rot >= 2 {
+				refs[0], refs[len(refs)-1] = refs[len(refs)-1], refs[0]
+			}
+			class := "forked-deactivated-controller+proxy"
+			if t == a {
+				class = "forked-deactivated-self+proxy"
+			}
+			o := &c09Offer{label: fmt.Sprintf("event %d fork:proxy", i), op: "addkey", class: class, di: t.idx, target: t.id, newKey: -1,
+				spec: spec, specExact: true, payload: w.encode(w.rawDoc(t.id, spec)), signKey: k, kid: proxy.id + "#" + keys[k].frag, embed: -1, prevs: refs,
+				mustReject: "accepted-unauthorised:" + class, keys: []int{attacker, k}}
+			x.Class("offer:" + o.class)
 			w.offer(o)
 		}
 	}
